@@ -13,7 +13,7 @@ import (
 
 func init() {
 	register(&Property{ID: "C13", Run: runC13, Meta: report.Meta{ID: "C13",
-		Explanation: "DECIDED (for every tree shape, given that Children() returns the children — A-user for foreign node types): the structure of the four small recursive passes. R13a parsley.Walk calls the callback exactly once, on its own node, after the children: the NonTerminalNode branch ranges over Children() and recurses with Walk(child, f) (Walk itself, not f), the Walkable branch delegates to n.Walk(f), a true result of either returns true at once without reaching f(node), and every library Walkable passes the callback on to parsley.Walk instead of invoking it; R13b parsley.StaticCheck walks with a callback that stores the first error and returns true exactly then; R13c NonTerminalNode.StaticCheck calls the interpreter's checker with the receiver whenever the interpreter is a StaticChecker (no other condition) and stores the returned schema only behind err == nil; R13d NonTerminalNode.Transform delegates to the interpreter's TransformNode(userCtx, receiver) when it has one and otherwise returns the receiver only after the loop that stores parsley.Transform(userCtx, child) back at the child's index, returning (nil, err) on the first error; parsley.Transform delegates to Transformable or returns its argument; R13e NonTerminalNode.Value hands the interpreter exactly the receiver. NOT DECIDED: foreign node types' Children()/Walk implementations.",
+		Explanation: "DECIDED (for every tree shape, given that Children() returns the children — A-user for foreign node types): the structure of the four small recursive passes. R13a (decided over the enumerated paths of Walk and of any helper it hands the children to, so the way the traversal is written does not matter) parsley.Walk calls the callback exactly once, on its own node, after the children: the NonTerminalNode branch ranges over Children() and recurses with Walk(child, f) (Walk itself, not f), the Walkable branch delegates to n.Walk(f), a true result of either returns true at once without reaching f(node), and every library Walkable passes the callback on to parsley.Walk instead of invoking it; R13b parsley.StaticCheck walks with a callback that stores the first error and returns true exactly then; R13c NonTerminalNode.StaticCheck calls the interpreter's checker with the receiver whenever the interpreter is a StaticChecker (no other condition) and stores the returned schema only behind err == nil; R13d NonTerminalNode.Transform delegates to the interpreter's TransformNode(userCtx, receiver) when it has one and otherwise returns the receiver only after the loop that stores parsley.Transform(userCtx, child) back at the child's index, returning (nil, err) on the first error; parsley.Transform delegates to Transformable or returns its argument; R13e NonTerminalNode.Value hands the interpreter exactly the receiver. NOT DECIDED: foreign node types' Children()/Walk implementations.",
 		Assumptions: commonAssumptions, TrustedBase: commonTrusted}})
 }
 
